@@ -65,6 +65,24 @@ func applyTouch(root string, tc *Touch, obs *disk.Node) string {
 		d[0] ^= 0x55
 		os.WriteFile(full, d, 0)
 		os.Chtimes(full, later, later)
+	case "same-size-same-second": // in-place edit, same size, new mtime within the same second
+		if n == nil || n.Kind != disk.File || len(n.Data) == 0 {
+			return ""
+		}
+		d := append([]byte{}, n.Data...)
+		d[len(d)-1] ^= 0x33
+		f, err := os.OpenFile(full, os.O_WRONLY, 0)
+		if err != nil {
+			return ""
+		}
+		f.Write(d)
+		f.Close()
+		os.Chmod(full, os.FileMode(n.Perm))
+		sameSecond := time.Unix(0, n.MTimeN-n.MTimeN%1_000_000_000+int64(500*time.Millisecond))
+		if sameSecond.UnixNano() == n.MTimeN {
+			sameSecond = sameSecond.Add(100 * time.Millisecond)
+		}
+		os.Chtimes(full, sameSecond, sameSecond)
 	case "touch":
 		if n == nil || n.Kind != disk.File {
 			return ""
@@ -360,14 +378,14 @@ func drawCase(rt *rapid.T) *Case {
 		var ops []string
 		switch e.Kind {
 		case tree.KFile:
-			ops = []string{"grow", "same-size-later-mtime", "touch", "chmod", "chmod-special", "new-inode", "to-dir", "to-link"}
+			ops = []string{"grow", "same-size-later-mtime", "same-size-same-second", "touch", "chmod", "chmod-special", "new-inode", "to-dir", "to-link"}
 		case tree.KLink:
 			ops = []string{"retarget", "to-file", "to-dir"}
 		case tree.KDir:
 			ops = []string{"new-child", "new-child", "to-file", "to-link"}
 		}
 		tc := &Touch{Op: rapid.SampledFrom(ops).Draw(rt, "touch.op"), Path: p, Name: rapid.SampledFrom([]string{"zz-new", "interloper.txt"}).Draw(rt, "touch.name")}
-		if e.Kind == tree.KFile && strings.Contains(p, "/") && (tc.Op == "grow" || tc.Op == "same-size-later-mtime" || tc.Op == "touch" || tc.Op == "chmod" || tc.Op == "new-inode") {
+		if e.Kind == tree.KFile && strings.Contains(p, "/") && (tc.Op == "grow" || tc.Op == "same-size-later-mtime" || tc.Op == "same-size-same-second" || tc.Op == "touch" || tc.Op == "chmod" || tc.Op == "new-inode") {
 			tc.During = rapid.IntRange(0, 2).Draw(rt, "touch.during") == 0
 		}
 		c.Touches = append(c.Touches, tc)
@@ -379,7 +397,7 @@ func TestInterloper(t *testing.T) {
 	if ev.ReplayPath() != "" {
 		t.Skip()
 	}
-	rec := ev.New(t, prop, "scan-interloper-transition", "rapid: random tree -> cold scan -> plan with Old from the snapshot -> 1-3 interloper edits (grow, same-size edit with later mtime, touch, chmod, same bytes/mtime/mode in a new inode, type change, link retarget, new child in a directory, content created where the plan creates; file edits optionally made in the middle of the transition, when it is about to unlink an object of another name) -> core.Transition (staged files in a third of the cases on another filesystem, so that they arrive through the cross-device copy fallback); every touched object covered by a transition must survive exactly (lstat identity, bytes, target) and be reported, untouched transitions must complete; non-trivial: >= 1 interloper edit on a path covered by a transition")
+	rec := ev.New(t, prop, "scan-interloper-transition", "rapid: random tree -> cold scan -> plan with Old from the snapshot -> 1-3 interloper edits (grow, same-size edit with later mtime, same-size in-place edit whose new mtime lies in the same second, touch, chmod, same bytes/mtime/mode in a new inode, type change, link retarget, new child in a directory, content created where the plan creates; file edits optionally made in the middle of the transition, when it is about to unlink an object of another name) -> core.Transition (staged files in a third of the cases on another filesystem, so that they arrive through the cross-device copy fallback); every touched object covered by a transition must survive exactly (lstat identity, bytes, target) and be reported, untouched transitions must complete; non-trivial: >= 1 interloper edit on a path covered by a transition")
 	base := t.TempDir()
 	i := 0
 	ev.Check(t, rec, 700, 40000, func(rt *rapid.T) {
